@@ -13,7 +13,7 @@ import json
 from sim import kernel
 kernel.boot()
 from sim import nodes, scen, views, loop, net   # noqa: E402
-from sim import variants                        # noqa: E402
+from sim import variants, script as sim_script   # noqa: E402
 
 ID = "C14"
 LEVEL = "exploration"
@@ -157,27 +157,8 @@ def execute(seed, sc, script, mode, chooser):
     tr["view_c"] = views.view(pair.c.conn) if oc.kind == "ok" else None
     tr["view_s"] = views.view(pair.s.conn) if os_.kind == "ok" else None
     if oc.kind == "ok" and os_.kind == "ok" and st == "idle":
-        q = {"c": [o for o in script if o[0] == "c"],
-             "s": [o for o in script if o[0] == "s"]}
         eps = {"c": pair.c, "s": pair.s}
-
-        def feed():
-            for w in "cs":
-                while eps[w].op is None and q[w]:
-                    op = q[w].pop(0)
-                    eps[w].start((op[1],) + tuple(op[2:]),
-                                 op_gen(eps[w], op))
-
-        def more():
-            return any(eps[w].op is None and q[w] for w in "cs")
-
-        feed()
-        while True:
-            st = sim.run(until=more)
-            if st == "until":
-                feed()
-                continue
-            break
+        st = sim_script.run_script(sim, eps, script, op_gen)
         tr["status"].append(st)
         for w in "cs":
             tr["ops"][w] = [o.sig() for o in eps[w].history[1:]]
